@@ -380,7 +380,7 @@ func (p *VipnodePool) requestHosts(ctx context.Context, nodeID string, numReques
 	}
 
 	var hosts []store.Node
-	if numRequestHosts == 0 {
+	if numRequestHosts <= 0 {
 		// Nothing left to do
 		return hosts, nil
 	}
@@ -421,6 +421,11 @@ func (p *VipnodePool) requestHosts(ctx context.Context, nodeID string, numReques
 
 		remote, ok := p.remoteHosts[node.ID]
 		if ok {
+			if len(remotes) >= numRequestHosts {
+				// We asked the store for extra candidates in case some had
+				// to be skipped, don't return more than were requested.
+				break
+			}
 			remotes = append(remotes, hostService{
 				node, remote,
 			})
